@@ -343,7 +343,16 @@ func (r *Rng) corrupt(o *Out, toks [][]byte) (string, string) {
 		es[i] = pick(r, []string{" fm2", "fm2 ", "\tfm1r", "fm1a\t", "\u00a0fm2", "fm2\n", "\nfm2", " fo1", "fo1 "}) + "_" + b64
 	case 2:
 		kind = "missing-separator"
-		es[i] = label + pick(r, []string{"", "-", " ", ":", "="}) + b64
+		if r.Bool() {
+			es[i] = label + pick(r, []string{"", "-", " ", ":", "="}) + b64
+		} else {
+			// an extra element that is a bare known label (OAuth label included) or a known label glued to
+			// a payload without the separator, next to the valid entries
+			kind = "missing-separator-extra"
+			bare := pick(r, []string{"fo1", "fm2", "fm1r", "fm1a", "fo1" + b64, "fo1-x", "fo1 "})
+			pos := r.Intn(len(es) + 1)
+			es = append(es[:pos], append([]string{bare}, es[pos:]...)...)
+		}
 	case 3:
 		kind = "separator-only"
 		es[i] = pick(r, []string{"_", "_" + b64, "__", "_fm2_" + b64})
